@@ -34,8 +34,15 @@ class Check:
     def add_tlc(self, res, module, what):
         self.states += res.distinct
         self.transitions += res.generated
-        self.mc_runs.append({"module": module, "what": what, "distinct": res.distinct,
-                             "generated": res.generated, "depth": res.depth, "wall_s": round(res.wall, 2)})
+        entry = {"module": module, "what": what, "distinct": res.distinct,
+                 "generated": res.generated, "depth": res.depth, "wall_s": round(res.wall, 2)}
+        cov = res.coverage() if hasattr(res, "coverage") else {}
+        if cov:
+            entry["actions_taken"] = {k: v[1] for k, v in sorted(cov.items())}
+            never = sorted(k for k, v in cov.items() if v[1] == 0)
+            if never:
+                entry["actions_never_taken"] = never
+        self.mc_runs.append(entry)
 
     def add_trace_stats(self, stats, module, n):
         self.states += stats["distinct"]
